@@ -161,6 +161,11 @@ impl SocketRecv for RepSocket {
                                 break;
                             }
                         }
+                        if at >= m.len() {
+                            // The delimiter is the last frame: there is no
+                            // request body to hand to the application.
+                            return Err(ZmqError::Other("Invalid message format"));
+                        }
                         let data = m.split_off(at);
                         self.envelope = Some(m);
                         self.current_request = Some(peer_id);
